@@ -213,7 +213,8 @@ func runC06x(c *Ctx) {
 			continue
 		}
 		n++
-		c.Check(len(CallSites(fn, atomicWrite)) > 0, name+"#atomic-write", fn.Pos(), "writes through osutil.AtomicWriteFile", name+" does not write the checkpoint through osutil.AtomicWriteFile")
+		viaAF := len(CallSites(fn, P.FuncObj("osutil.NewAtomicFile"))) > 0 && len(CallSites(fn, P.FuncObj("osutil.(*AtomicFile).Commit"))) > 0
+		c.Check(len(CallSites(fn, atomicWrite)) > 0 || viaAF, name+"#atomic-write", fn.Pos(), "writes through osutil.AtomicWriteFile (or an AtomicFile it commits)", name+" does not write the checkpoint through osutil.AtomicWriteFile")
 		var direct []string
 		for _, b := range fn.Blocks {
 			for _, in := range b.Instrs {
@@ -955,7 +956,7 @@ func runC25x(c *Ctx) {
 	run := P.Func(pkg + ".Run")
 	newParser := P.FuncObj("github.com/jessevdk/go-flags.NewNamedParser")
 	helpFlag := P.Const("github.com/jessevdk/go-flags.HelpFlag")
-	calls := CallSites(run, newParser)
+	calls, _ := P.CallSitesDeep(run, newParser)
 	if len(calls) != 1 {
 		c.Undecided(pkg+".Run#parser-options", run.Pos(), fmt.Sprintf("expected one flags.NewNamedParser call, found %d", len(calls)))
 	} else {
